@@ -193,4 +193,13 @@ impl Iterator for CountIter {
     self.i += 1;
     Some(V::I(self.i as i64 - 1))
   }
+  /// exact for even caps (what Vec / range iterators report), unknown for odd ones
+  fn size_hint(&self) -> (usize, Option<usize>) {
+    if self.cap % 2 == 0 {
+      let n = self.cap.saturating_sub(self.i);
+      (n, Some(n))
+    } else {
+      (0, None)
+    }
+  }
 }
